@@ -36,9 +36,16 @@ def consts(repo, fails):
     return g
 
 
+# guard name -> names of the Gen files of the extractor that raised it ("*" = unknown: an extractor crashed)
+OWNERS = {}
+
+
 def run(repo, gendir):
     fails = []
+    OWNERS.clear()
     gens = [consts(repo, fails)]
+    for f in fails:
+        OWNERS[f[0]] = {"Consts"}
     # every translator/tr_<name>.py module (except tr_util) contributes run(repo, fails) -> [Gen]
     import glob
     import importlib
@@ -48,10 +55,16 @@ def run(repo, gendir):
         if name == "tr_util":
             continue
         mod = importlib.import_module(name)
+        before = len(fails)
         try:
-            gens += mod.run(repo, fails)
+            gs = mod.run(repo, fails)
+            gens += gs
+            for f in fails[before:]:
+                OWNERS[f[0]] = set(g.name for g in gs)
         except Exception as ex:  # a crashing extractor is a broken tie, not a crash of the check
             fails.append((name, "extractor crashed: %r" % (ex,)))
+            for f in fails[before:]:
+                OWNERS[f[0]] = {"*"}
     for g in gens:
         g.write(gendir)
     return fails
